@@ -484,7 +484,9 @@ class CJson:
         if " ".join(t.text for t in body[5][1]) != "int k = 0 ; k < descriptor -> cap ; k ++":
             self.fail(fn, "loop header is not `int k = 0; k < descriptor->cap; k++`", body[5])
         loop = unblock(body[5][2])
-        if len(loop) != 3 or loop[0][0] != "raw" or " ".join(t.text for t in loop[0][1]) != \
+        if len(loop) != 3:
+            self.fail(fn, "loop body is not [element_data = ...; switch; if (k + 1 < cap) separator]", loop)
+        if loop[0][0] != "raw" or " ".join(t.text for t in loop[0][1]) != \
                 "void * element_data = ( void * ) ( data_ptr + k * element_size )":
             self.fail(fn, "element address is not data_ptr + k * element_size", loop)
         base, fmtr = self.dispatch(fn, loop[1], mask, ["element_flag", "element_nbits", "ctx", "element_data"],
